@@ -14,6 +14,7 @@ import (
 	"github.com/fogfish/golem/optics"
 	"pgregory.net/rapid"
 	"verif/harness/optcheck"
+	altut "verif/harness/optcheck/alt/ut"
 	"verif/harness/optcheck/ut"
 	"verif/harness/vk"
 )
@@ -70,6 +71,7 @@ var universe = []utype{
 	mk[ut.Pt]("ut.Pt"), mk[ut.MyStr]("ut.MyStr"), mk[ut.MyInt16]("ut.MyInt16"), mk[ut.MyInt]("ut.MyInt"), mk[ut.MyInt64]("ut.MyInt64"),
 	mk[ut.MyBytes]("ut.MyBytes"), mk[ut.MyF32]("ut.MyF32"), mk[ut.MyF64]("ut.MyF64"), mk[ut.Labels]("ut.Labels"), mk[ut.MyMap]("ut.MyMap"),
 	mk[ut.MyBool]("ut.MyBool"), mk[*ut.Buf]("*ut.Buf"), mk[ut.Tag]("ut.Tag"),
+	mk[*altut.Pt]("*altut.Pt"), mk[[]altut.MyStr]("[]altut.MyStr"), mk[altut.Pt]("altut.Pt"), mk[[]ut.MyStr]("[]ut.MyStr"),
 }
 
 // ---- scenario: a shape spec (plain data) + which entry to focus + how
@@ -314,7 +316,9 @@ func Run(rt *rapid.T, sc Scenario) (msg string) {
 	optcheck.FillValue(rt, v)
 	p := (*Blob)(base)
 	field := v.FieldByIndex(fe.index)
-	snapshot := func() []byte { return append([]byte(nil), optcheck.BytesAt(arena.Addr().UnsafePointer(), arenaT.Size())...) }
+	snapshot := func() []byte {
+		return append([]byte(nil), optcheck.BytesAt(arena.Addr().UnsafePointer(), arenaT.Size())...)
+	}
 	mask := optcheck.ValueMask(fe.typ)
 	same := func(a, b reflect.Value) bool {
 		x, y := optcheck.BytesAt(a.Addr().UnsafePointer(), fe.typ.Size()), optcheck.BytesAt(b.Addr().UnsafePointer(), fe.typ.Size())
